@@ -27,6 +27,11 @@ def grids(tier):
     return W, Ls, T, R, TE, TC
 
 
+SENT_T = dict(w1_mm=0.3, w2_mm=0.25, l_mm=12.0, t_mm=0.035, temp=45.0)
+SENT_P = dict(w=4.0, l=9.0, t_mm=0.035, temp=45.0)
+SENT0 = (trace_res(**SENT_T), plane_res(**SENT_P), RHO, TCR)   # evaluated at import, before any call with an explicit material
+
+
 def rel(a, b, tol=1e-12):
     return abs(a - b) <= tol * max(abs(a), abs(b))
 
@@ -59,12 +64,21 @@ def check_case(case):
     a, b, c = pr(temp=te), pr(temp=te + 30.0), pr(temp=te + 60.0)
     if not rel(b - a, c - b, 1e-9) and abs((b - a) - (c - b)) > 1e-15 * abs(b):
         res.v(("C20.plane-affine-temp",), "%r" % (case,))
-    # defaults
-    if te == 20.0 and rho == RHO and tc == TCR:
-        if trace_res(w1_mm=w1, w2_mm=w2, l_mm=l, t_mm=t) != r or plane_res(w=w1, l=l, t_mm=t) != p:
-            res.v(("C20.defaults",), "%r" % (case,))
+    # defaults: omitting ANY subset of the optional arguments equals passing the documented defaults (rho=RHO, temp=20, tcr=TCR) explicitly
+    opt = dict(rho=rho, temp=te, tcr=tc)
+    dfl = dict(rho=RHO, temp=20.0, tcr=TCR)
+    for omit in (("rho",), ("temp",), ("tcr",), ("rho", "temp"), ("rho", "tcr"), ("temp", "tcr"), ("rho", "temp", "tcr")):
+        given = {k: v for k, v in opt.items() if k not in omit}
+        full = dict(given, **{k: dfl[k] for k in omit})
+        if trace_res(w1_mm=w1, w2_mm=w2, l_mm=l, t_mm=t, **given) != trace_res(w1_mm=w1, w2_mm=w2, l_mm=l, t_mm=t, **full):
+            res.v(("C20.defaults", "trace", "+".join(omit)), "%r: omitting %r differs from passing the documented defaults" % (case, omit))
+        if plane_res(w=w1, l=l, t_mm=t, **given) != plane_res(w=w1, l=l, t_mm=t, **full):
+            res.v(("C20.defaults", "plane", "+".join(omit)), "%r: omitting %r differs from passing the documented defaults" % (case, omit))
+    # no call may change what a later call with defaults returns (module-level state)
+    if (trace_res(**SENT_T), plane_res(**SENT_P), RHO, TCR) != SENT0 or (__import__("sysloss.utils").utils.RHO, __import__("sysloss.utils").utils.TCR) != SENT0[2:]:
+        res.v(("C20.state-leak",), "after evaluating %r a default call returns %r, at start-up %r" % (case, (trace_res(**SENT_T), plane_res(**SENT_P)), SENT0[:2]))
     res.nontrivial = 1 if (te != 20.0 and w1 != w2) else 0
-    res.stats["evaluations"] += 28
+    res.stats["evaluations"] += 58
     return res
 
 
